@@ -14,3 +14,26 @@ package getters
 //@   ensures err == nil ==> $FromOK
 //@   checks err != nil ==> result0 == zero
 //@   loop 1: invariant true
+
+// Each cascading method asks every getter for exactly what it was asked for itself: the same header and
+// the same coordinates / row / namespace / range.
+//@ func (*CascadeGetter).GetSamples$1
+//@   property C06
+//@   noframe
+//@   callpre Getter).GetSamples: $arg2 == hdr && $arg3 == indices
+//@ func (*CascadeGetter).GetEDS$1
+//@   property C06
+//@   noframe
+//@   callpre Getter).GetEDS: $arg2 == header
+//@ func (*CascadeGetter).GetRow$1
+//@   property C06
+//@   noframe
+//@   callpre Getter).GetRow: $arg2 == header && $arg3 == rowIdx
+//@ func (*CascadeGetter).GetNamespaceData$1
+//@   property C06
+//@   noframe
+//@   callpre Getter).GetNamespaceData: $arg2 == header && $arg3 == namespace
+//@ func (*CascadeGetter).GetRangeNamespaceData$1
+//@   property C06
+//@   noframe
+//@   callpre Getter).GetRangeNamespaceData: $arg2 == header && $arg3 == from && $arg4 == to
